@@ -264,7 +264,17 @@ func posMonitor(args []string) int {
 			rep.Distinct++
 		}
 		in := func() map[string]interface{} {
-			return map[string]interface{}{"root": g.Root, "moves": movesUci(g.Moves), "fen": p.StringFen()}
+			// whether the asymmetric clamp of the game phase (known finding) can have acted on the way here or can act
+			// within the excursion: a game-phase difference anywhere else is a different defect
+			reach := phaseClampReachable(p)
+			if q, err := position.NewPositionFen(g.Root); err == nil && q != nil {
+				reach = reach || phaseClampReachable(q)
+				for _, m := range g.Moves {
+					q.DoMove(m)
+					reach = reach || phaseClampReachable(q)
+				}
+			}
+			return map[string]interface{}{"root": g.Root, "moves": movesUci(g.Moves), "fen": p.StringFen(), "phase_clamp_reachable": reach}
 		}
 		// --- C04: incremental vs fresh-from-FEN vs recomputed
 		cur := snap(p, ev, false)
